@@ -17,3 +17,4 @@ def run(chk):
             ids=('B2c', 'B2', 'B2o'))
     clones.rule_clones(chk, 'N1', select=lambda s: bool(_re.search(r'cmac|xcbc|ghash|gmac|ccm_auth', s)), floor=3)
     clones.rule_defuse(chk, 'D1', 'D2', ('hash',), floor=50)
+    clones.rule_tables(chk, 'N5', ('hash',), floor=20)
